@@ -160,9 +160,9 @@ def checker_factory(modname, entries):
             except Unsupported as u:
                 sw.undecided.append(dict(n=n, why='%s: outside the subset: %s' % (e['fn'], u)))
                 continue
-            if status != 'ok':
+            partial = status != 'ok'
+            if partial:
                 sw.undecided.append(dict(n=n, why='%s: closure budget' % e['fn']))
-                continue
             okall = True
             for ctx, r in paths:
                 extra = None
@@ -202,7 +202,8 @@ def checker_factory(modname, entries):
                 okall = False
                 sw.finding('conversion breaks validity or identity', '%s: %s' % (e['fn'], what), input=x, opts=opts, today=today, approx=ctx.approx or bool(getattr(ctx, 'soft', None)),
                            real=desc, reproduced=desc is not None, conv=e['fn'])
-            sw.obligations.append((oid, ('undecided' if getattr(sw, 'unknowns', 0) > u0 else 'proved') if okall else 'refuted', '%d paths' % len(paths)))
+            if not (partial and okall):
+                sw.obligations.append((oid, ('undecided' if getattr(sw, 'unknowns', 0) > u0 else 'proved') if okall else 'refuted', '%d paths' % len(paths)))
         if not sw.samples:
             sw.samples.append(dict(n=n, converters=[e['fn'] for e, _, _, _ in funcs]))
     return checker
